@@ -160,6 +160,59 @@ func opList(hist []StoreOp, fill bool) (int, []StoreEvent, error) {
 	return e.Ops(0), evs, nil
 }
 
+type c17Ref struct{ before, after []string }
+
+var (
+	c17RefMu sync.Mutex
+	c17Refs  = map[string]*c17Ref{}
+)
+
+// c17Reference runs the history without a crash and returns the user-level content of the lake
+// (values per pool@branch, vector counts) before and after its last operation.  Content does not
+// depend on object ids, so it can be compared with the recovered state of a crashed run.
+func c17Reference(hist []StoreOp) (*c17Ref, error) {
+	b, _ := json.Marshal(hist)
+	c17RefMu.Lock()
+	ref := c17Refs[string(b)]
+	c17RefMu.Unlock()
+	if ref != nil {
+		return ref, nil
+	}
+	e := NewStoreEngine()
+	r, err := NewStoreRun(e, [][]StoreOp{hist[:len(hist)-1]})
+	if err != nil {
+		return nil, err
+	}
+	r.RunSequential(0)
+	before, err := r.ContentView()
+	if err != nil {
+		return nil, err
+	}
+	r.Append(0, hist[len(hist)-1])
+	r.RunSequential(0)
+	after, err := r.ContentView()
+	if err != nil {
+		return nil, err
+	}
+	ref = &c17Ref{before, after}
+	c17RefMu.Lock()
+	c17Refs[string(b)] = ref
+	c17RefMu.Unlock()
+	return ref, nil
+}
+
+func sameLines(a, b []string) bool {
+	if len(a) != len(b) {
+		return false
+	}
+	for i := range a {
+		if a[i] != b[i] {
+			return false
+		}
+	}
+	return true
+}
+
 // headFiles inspects the HEAD file of every journal: empty (created / truncated and never
 // filled), or holding a number more than one behind the highest entry (a prefix of its digits).
 func headFiles(e *StoreEngine) (empty []string, farBehind []string) {
@@ -259,7 +312,27 @@ func c17Run(c *sink, cs *c17Case) {
 			}
 		}
 		pl, cm := r.StoreIDStrings()
-		why, _ := StoreLinearizable(r.History, obs, pl, cm)
+		specable := StoreSpecable(r.Ops)
+		why := ""
+		if specable {
+			why, _ = StoreLinearizable(r.History, obs, pl, cm)
+		} else if stage == 0 {
+			// merge / delete-where / vector add: all-or-nothing by content against crash-free runs
+			ref, err := c17Reference(hist)
+			if err != nil {
+				c.Fail("harness", "C17:harness:reference", err.Error(), cs)
+				return
+			}
+			got, err := r.ContentView()
+			if err != nil {
+				c.Fail("oracle", "C17:readable:content", fmt.Sprintf("after %s the lake cannot be queried: %v", desc, err), cs)
+				return
+			}
+			if !sameLines(got, ref.before) && !sameLines(got, ref.after) {
+				why = fmt.Sprintf("content %v is neither the content before %v nor after %v the interrupted operation", got, ref.before, ref.after)
+			}
+			c.Stat("content-oracle:" + last.Kind)
+		}
 		if os.Getenv("C17_DEBUG") != "" {
 			fmt.Fprintf(os.Stderr, "stage %d: empty=%v far=%v why=%q obs=%+v\n", stage, emptyHeads, farBehind, why, obs)
 		}
@@ -342,7 +415,13 @@ func c17Run(c *sink, cs *c17Case) {
 			return
 		}
 		pl, cm = r.StoreIDStrings()
-		if why, _ := StoreLinearizable(r.History, obs2, pl, cm); why != "" {
+		why2 := ""
+		if StoreSpecable(r.Ops) {
+			why2, _ = StoreLinearizable(r.History, obs2, pl, cm)
+		} else {
+			why2 = StoreChainOracle(r.History, obs2, pl)
+		}
+		if why := why2; why != "" {
 			if os.Getenv("C17_DEBUG") != "" {
 				for _, h := range r.History {
 					fmt.Fprintf(os.Stderr, "%+v\n", *h)
@@ -366,7 +445,7 @@ func c17Run(c *sink, cs *c17Case) {
 		c.Stat("runs-with:" + k)
 	}
 	// ---- the model
-	if compareModel {
+	if compareModel && StoreOpsModelled(r.Ops) {
 		if diff, req := c.Compare(r, cs.Fill); diff != "" {
 			c.Fail("correspondence", "C17:model:"+strings.SplitN(diff, "[", 2)[0], "model and code disagree: "+diff, map[string]any{"case": cs, "model_request": req})
 		}
@@ -522,6 +601,46 @@ func runC17(c0 *Ctx) {
 			c17Run(c, cs)
 			b, _ := json.Marshal(cs)
 			c.Eval(string(b))
+		})
+	}
+	if c0.Want("ops2") {
+		// the remaining mutations of the property: compact, revert, merge, delete-where, vector add
+		// as the interrupted operation
+		setup := []StoreOp{{Kind: "createPool", Lbl: 1, Name: 1}, {Kind: "load", Pool: 1, Branch: 0, Obj: 1, Lbl: 101}, {Kind: "load", Pool: 1, Branch: 0, Obj: 2, Lbl: 102}}
+		with := func(ops ...StoreOp) []StoreOp { return append(append([]StoreOp(nil), setup...), ops...) }
+		hists := [][]StoreOp{
+			with(StoreOp{Kind: "compact", Pool: 1, Branch: 0, Lbl: 103, Obj: 3, Objs: []int{1, 2}}),
+			with(StoreOp{Kind: "revert", Pool: 1, Branch: 0, Lbl: 103, Parent: 102}),
+			with(StoreOp{Kind: "createBranch", Pool: 1, Name: 1, Parent: 101}, StoreOp{Kind: "load", Pool: 1, Branch: 1, Obj: 3, Lbl: 103},
+				StoreOp{Kind: "merge", Pool: 1, Branch: 1, Name: 0, Lbl: 104}),
+			with(StoreOp{Kind: "deleteWhere", Pool: 1, Branch: 0, Lbl: 103, Obj: 1}),
+			with(StoreOp{Kind: "addVectors", Pool: 1, Branch: 0, Lbl: 103, Objs: []int{1}}),
+		}
+		var jobs []*c17Case
+		for _, h := range hists {
+			n, err := opCount(h)
+			if err != nil {
+				c.Fail("harness", "C17:harness:count", err.Error(), h)
+				continue
+			}
+			c.Stat("last-op:" + h[len(h)-1].Kind)
+			for k := 1; k <= n+1; k++ {
+				if !c0.Thorough() && n > 24 && k%2 == 0 && k < n-8 {
+					continue // quick: every other early crash point of the long operations
+				}
+				jobs = append(jobs, &c17Case{Hist: h, K: k})
+			}
+		}
+		deadline := time.Now().Add(time.Duration(c0.N(30, 400)) * time.Second)
+		ParallelDo(len(jobs), c17Workers, func(i int) {
+			if !time.Now().Before(deadline) {
+				c.Stat("ops2:skipped-deadline")
+				return
+			}
+			c17Run(c, jobs[i])
+			b, _ := json.Marshal(jobs[i])
+			c.Eval(string(b))
+			c.Stat("ops2:runs")
 		})
 	}
 	if c0.Want("fillcrash") {
